@@ -385,12 +385,19 @@ def check_ops(run, r, g, tier):
             if cand.is_open():
                 own = cand
                 break
+        U_ = U
+        if i % 2 == 1:
+            # directed: over the booleans (two elements in every model), the argument's body applies a free function to its
+            # own bound variable and to the outer one, so that moving either index changes the meaning
+            U_, R2 = BoolType, BoolType
+            hv = Var('h', TFun(U_, U_, R2))
+            own = Comb(Comb(hv, Bound(0)), Bound(1)) if r.random() < 0.5 else Comb(Comb(hv, Bound(1)), Bound(0))
         if own is not None:
-            arg_open = Abs('c', U, own)
-            fbody = Abs('b', U, Comb(Bound(1), Bound(r.choice([0, 2]))))
+            arg_open = Abs('c', U_, own)
+            fbody = Abs('b', U_, Comb(Bound(1), Bound(r.choice([0, 2]))))
             if r.random() < 0.3:
-                fbody = Abs('b', U, Abs('d', U, Comb(Bound(2), Bound(r.choice([0, 1, 3])))))
-            red2 = Abs('a', U, Comb(Abs('f', TFun(U, R2), fbody), arg_open))
+                fbody = Abs('b', U_, Abs('d', U_, Comb(Bound(2), Bound(r.choice([0, 1, 3])))))
+            red2 = Abs('a', U_, Comb(Abs('f', TFun(U_, R2), fbody), arg_open))
             for inp in (red2, share(red2)):
                 res, err = attempt(lambda: inp.beta_norm())
                 add('case_beta_norm %s %s' % (g_tm(inp), g_opt(res, g_tm)), 'beta_norm', (repr(inp),), res, err)
